@@ -112,6 +112,9 @@ func (e *Env) judge(name string, obs []*Obs) ([]Failure, JudgeStats, error) {
 				if o.Hidden == nil {
 					o.Hidden = []string{}
 				}
+				if o.Rows == nil {
+					o.Rows = []string{}
+				}
 				if err := enc.Encode(o); err != nil {
 					sh.err = err
 					f.Close()
